@@ -1,3 +1,5 @@
+pub mod framework;
+pub mod props;
 pub mod rng;
 pub mod simcfg;
 pub mod simio;
